@@ -99,7 +99,7 @@ def handle (args : List String) : String :=
           else (lx, ly, e == "s1")
         (lx, ly, sl, out ++ [if sl then ly else lx])) ([], [], false, [[]])
       handleList (op == "keyedsel") st.2.2.2
-    else if op == "keyed" then handleList true ((evs.splitOn ";").map parseItems)
+    else if op == "keyed" || op == "keyedc" then handleList true ((evs.splitOn ";").map parseItems)
     else if op == "indexed" then handleList false ((evs.splitOn ";").map parseItems)
     else "bad-op"
   | _ => "bad-op"
